@@ -12,6 +12,8 @@ import (
 	"encoding/binary"
 	"fmt"
 	"hash/crc64"
+	"os"
+	"path/filepath"
 	"sort"
 	"strings"
 	"testing"
@@ -859,6 +861,190 @@ func vfC09RunCodec(r *vfRand, i int) {
 	vfCase(coq, vfKey("codec", kind, xs), len(xs) >= 2, []string{fmt.Sprintf("codec=%d", kind)}, map[string]any{"kind": kind, "in": xs})
 }
 
+
+// ---- sequences of documents through ONE DocChecker / ONE index.Builder (the checker's trigram map is reused)
+
+// independent verdict of one document: a function of the document and the options only
+func vfC09IndepVerdict(content []byte, sizeMax, trigMax int, allow bool) SkipReason {
+	switch {
+	case len(content) > sizeMax && !allow:
+		return SkipReasonTooLarge
+	case len(content) == 0:
+		return SkipReasonNone
+	case len(content) < 3:
+		return SkipReasonTooSmall
+	case bytes.IndexByte(content, 0) >= 0:
+		return SkipReasonBinary
+	case len(content)-2 <= trigMax || allow:
+		return SkipReasonNone
+	}
+	rs := []rune(string(content)) // invalid bytes become U+FFFD one by one, as utf8.DecodeRune does
+	set := map[[3]rune]bool{}
+	for i := 2; i < len(rs); i++ {
+		set[[3]rune{rs[i-2], rs[i-1], rs[i]}] = true
+	}
+	if len(set) > trigMax {
+		return SkipReasonTooManyTrigrams
+	}
+	return SkipReasonNone
+}
+
+func vfC09GenSeqDoc(r *vfRand, sizeMax, trigMax int) ([]byte, string) {
+	var b bytes.Buffer
+	switch k := r.Intn(100); {
+	case k < 22: // many distinct trigrams, within the size limit
+		n := trigMax + 3 + r.Intn(10)
+		for i := 0; i < n && b.Len() < sizeMax-4; i++ {
+			b.WriteString(string(rune(0x100 + r.Intn(400))))
+		}
+		return b.Bytes(), "many-trigrams"
+	case k < 50: // longer than TrigramMax bytes but few distinct trigrams: takes the counting path and must pass
+		w := r.Pick([]string{"ab", "abc", "xyz ", "é", "a\n", "foo bar "})
+		n := trigMax + 3 + r.Intn(sizeMax-trigMax)
+		for b.Len() < n && b.Len() < sizeMax-len(w) {
+			b.WriteString(w)
+		}
+		return b.Bytes(), "long-repetitive"
+	case k < 58:
+		return nil, "empty"
+	case k < 64:
+		return []byte(r.Pick([]string{"a", "ab", "é"})), "tiny"
+	case k < 72:
+		return []byte("bin\x00ary content here"), "binary"
+	case k < 82: // larger than SizeMax
+		for b.Len() <= sizeMax {
+			b.WriteString(r.Pick([]string{"large ", "file ", "x"}))
+		}
+		return b.Bytes(), "too-large"
+	default:
+		n := 1 + r.Intn(6)
+		for i := 0; i < n; i++ {
+			b.WriteString(r.Pick(vfC09Words))
+		}
+		c := bytes.ReplaceAll(b.Bytes(), []byte{0}, []byte{' '})
+		return c, "short-text"
+	}
+}
+
+func vfC09RunSeq(t *testing.T, r *vfRand, i int, e2e bool) {
+	trigMax := 5 + r.Intn(14)
+	sizeMax := 80 + r.Intn(120)
+	nd := 3 + r.Intn(7)
+	type sdoc struct {
+		name    string
+		content []byte
+		allow   bool
+		kind    string
+	}
+	var docs []sdoc
+	var large []string
+	classes := []string{"seq"}
+	for j := 0; j < nd; j++ {
+		c, kind := vfC09GenSeqDoc(r, sizeMax, trigMax)
+		d := sdoc{name: fmt.Sprintf("dir/f%d.txt", j), content: c, kind: kind}
+		if r.Chance(12) {
+			d.allow = true
+			d.name = fmt.Sprintf("dir/big%d.txt", j)
+			large = append(large, d.name)
+		}
+		docs = append(docs, d)
+		classes = append(classes, "seqdoc="+kind)
+	}
+	replay := func() map[string]any {
+		var ds []map[string]any
+		for _, d := range docs {
+			ds = append(ds, map[string]any{"name": d.name, "content": fmt.Sprintf("%q", d.content), "allow": d.allow, "kind": d.kind})
+		}
+		return map[string]any{"TrigramMax": trigMax, "SizeMax": sizeMax, "docs": ds, "LargeFiles": large}
+	}
+	// (1) one reused DocChecker, exactly as Builder.Add drives it
+	var dc DocChecker
+	var verdicts []uint64
+	var rows []string
+	afterReject := false
+	for _, d := range docs {
+		var v SkipReason
+		if len(d.content) > sizeMax && !d.allow {
+			v = SkipReasonTooLarge
+		} else {
+			v = dc.Check(d.content, trigMax, d.allow)
+		}
+		want := vfC09IndepVerdict(d.content, sizeMax, trigMax, d.allow)
+		if v != want {
+			vfOracleFail("c09:docchecker-verdict", fmt.Sprintf("document %s (%s) is classified %q by a DocChecker that has seen earlier documents, but on its own it is %q",
+				d.name, d.kind, v.explanation(), want.explanation()), replay())
+		}
+		if afterReject && d.kind == "long-repetitive" {
+			classes = append(classes, "seq=counted-after-reject")
+		}
+		if v == SkipReasonTooManyTrigrams {
+			afterReject = true
+		}
+		verdicts = append(verdicts, uint64(v))
+		rows = append(rows, cPair(cBytes(d.content), cBool(d.allow)))
+	}
+	coq := cApp("CSeq", cN(uint64(sizeMax)), cN(uint64(trigMax)), cList(rows), cNList(verdicts))
+	vfCase(coq, vfKey("seq", i, sizeMax, trigMax, rows), true, classes, map[string]any{"TrigramMax": trigMax, "SizeMax": sizeMax, "docs": nd})
+	if !e2e {
+		return
+	}
+	// (2) the same sequence through ONE index.Builder, read back from the shards it wrote
+	dir, err := os.MkdirTemp(os.Getenv("VERIF_TMP"), "c09seq")
+	if err != nil {
+		t.Fatal(err)
+	}
+	defer os.RemoveAll(dir)
+	b, err := NewBuilder(Options{IndexDir: dir, RepositoryDescription: zoekt.Repository{Name: "seqrepo"}, SizeMax: sizeMax, TrigramMax: trigMax,
+		LargeFiles: large, DisableCTags: true, Parallelism: 1})
+	if err != nil {
+		t.Fatal(err)
+	}
+	for _, d := range docs {
+		if err := b.Add(Document{Name: d.name, Content: append([]byte(nil), d.content...)}); err != nil {
+			t.Fatal(err)
+		}
+	}
+	if err := b.Finish(); err != nil {
+		t.Fatal(err)
+	}
+	got := map[string]string{}
+	shards, _ := filepath.Glob(filepath.Join(dir, "*.zoekt"))
+	for _, fn := range shards {
+		f, err := os.Open(fn)
+		if err != nil {
+			t.Fatal(err)
+		}
+		inf, err := NewIndexFile(f)
+		if err != nil {
+			t.Fatal(err)
+		}
+		s, err := NewSearcher(inf)
+		if err != nil {
+			vfOracleFail("c09:builder-load", "a shard written by index.Builder does not load: "+err.Error(), replay())
+			continue
+		}
+		res, err := s.Search(context.Background(), &query.Const{Value: true}, &zoekt.SearchOptions{Whole: true})
+		if err == nil {
+			for _, fm := range res.Files {
+				got[fm.FileName] = string(fm.Content)
+			}
+		}
+		s.Close()
+	}
+	for _, d := range docs {
+		want := string(d.content)
+		if v := vfC09IndepVerdict(d.content, sizeMax, trigMax, d.allow); v != SkipReasonNone {
+			want = "NOT-INDEXED: " + v.explanation()
+		}
+		g, ok := got[d.name]
+		if !ok {
+			vfOracleFail("c09:builder-missing", fmt.Sprintf("document %s added to index.Builder is not in the shards", d.name), replay())
+		} else if g != want {
+			vfOracleFail("c09:builder-content", fmt.Sprintf("document %s (%s) added to index.Builder reads back as %.60q, want %.60q", d.name, d.kind, g, want), replay())
+		}
+	}
+}
+
 var _ = binary.BigEndian
 
 func TestVerifC09Consts(t *testing.T) { vfC09Consts(t) }
@@ -886,5 +1072,8 @@ func TestVerifC09(t *testing.T) {
 	}
 	for i := 0; i < 4*n; i++ {
 		vfC09RunCodec(r, i)
+	}
+	for i := 0; i < 6*n; i++ {
+		vfC09RunSeq(t, r, i, i < n)
 	}
 }
